@@ -495,6 +495,84 @@ func Variants(ci int) []Variant {
 	out = append(out, Variant{Cmd: Cmd{Tag: tag, Name: "NOOP(junk-tail)", Class: "junk-tail", Junk: []string{jk}, Chunks: []Chunk{{Text: tag + " NOOP " + jk + " NOOP\r\n"}}}})
 	out = append(out, Variant{Core: true, Cmd: Cmd{Tag: tag, Name: "UNKNOWN", Chunks: []Chunk{{Text: tag + " XYZZY\r\n"}}}})
 	out = append(out, Variant{Cmd: Cmd{Tag: tag, Name: "UNKNOWN(junk-tail)", Class: "junk-tail", Junk: []string{jk}, Chunks: []Chunk{{Text: tag + " XYZZY " + jk + " NOOP\r\n"}}}})
+	// (appended last: the positions of the variants above are used for samples and follow-up sets)
+	out = append(out, rejectedLineVariants(ci)...)
+	return out
+}
+
+// rejectedLineVariants: command lines the server rejects BEFORE it reaches the end of the line
+// (unknown command, NOOP with surplus arguments, STORE with a syntax error in the flag list), so
+// that the rest of the line is thrown away unparsed. What follows the line then depends on one
+// thing only: whether the line ENDS in a non-synchronising literal header "{n+}" (RFC 7888: the
+// n octets after the CRLF belong to the rejected command and must be skipped too) or not (the
+// next octets are the next command). The alphabet exercises every branch of a recogniser of that
+// suffix: the discarded text additionally contains an earlier "{" (inside a quoted string, in
+// atom position), an earlier "}", an earlier "+}", earlier literal-looking groups "{3}" / "{3+}",
+// two literals in one rejected line; and the mirror cases in which the line does NOT end in a
+// literal header although it contains pieces of one ("9+}" without "{", "{x+}", "{+}", "{-9+}",
+// "{9+}" not at the end of the line).
+func rejectedLineVariants(ci int) []Variant {
+	tag := fmt.Sprintf("s%d", ci)
+	jk := fmt.Sprintf("Jk%d", ci)
+	prefixes := []struct{ name, text string }{
+		{"UNKNOWN", "XFROB "},                 // rejected at the command name
+		{"NOOP", "NOOP "},                     // rejected where CRLF was expected
+		{"STORE-syntax-error", "STORE 1 FLAGS (\\Seen "}, // rejected inside the flag list
+	}
+	// text between the rejected point and the literal header that ends the line
+	shapes := []struct{ name, text string }{
+		{"no-brace", jk + " "},
+		{"quoted-open-brace", "\"{\" "},
+		{"quoted-literal-lookalike", "\"folder{1}\" "},
+		{"atom-open-brace", "a{b "},
+		{"close-brace", "a}b "},
+		{"plus-close-brace", "x+} "},
+		{"sync-lookalike-group", "{3} "},
+		{"nonsync-lookalike-group", "{3+} "},
+	}
+	// the line does not end in a literal header: what follows is the next command
+	lookalikes := []struct{ name, text string }{
+		{"size-plus-close-without-open", jk + " 9+}"},
+		{"non-numeric-size", jk + " {x+}"},
+		{"empty-size", jk + " {+}"},
+		{"negative-size", jk + " {-9+}"},
+		{"nonsync-header-not-at-end", "{9+} " + jk},
+	}
+	var out []Variant
+	n := 0
+	lit := func() *Lit {
+		marker := fmt.Sprintf("Mr%d%d", ci, n)
+		n++
+		head := marker + "a NOOP\r\n" + marker + "b NOOP\r\n"
+		return &Lit{Announce: int64(len(head)), Head: head, Ctx: "buffered", Marker: marker, Class: "cmdlike"}
+	}
+	for _, p := range prefixes {
+		for _, sh := range shapes {
+			c := Cmd{Tag: tag, Kind: KPlain, Class: "nonsync-literal-in-rejected-command-line",
+				Name:   fmt.Sprintf("%s(rejected-line,%s,{n+}cmdlike)", p.name, sh.name),
+				Chunks: []Chunk{{Text: tag + " " + p.text + sh.text}, {Lit: lit()}, {Text: "\r\n"}}}
+			if sh.name == "no-brace" {
+				c.Junk = []string{jk}
+			}
+			v := Variant{Cmd: c}
+			// follow-up set: an earlier "{" after the plainest rejection
+			v.Core = p.name == "NOOP" && sh.name == "quoted-open-brace"
+			out = append(out, v)
+		}
+		if p.name != "STORE-syntax-error" {
+			// two literals in one rejected line, each header preceded by an earlier brace
+			c := Cmd{Tag: tag, Kind: KPlain, Class: "nonsync-literal-in-rejected-command-line",
+				Name: fmt.Sprintf("%s(rejected-line,two-literals-with-earlier-braces)", p.name),
+				Chunks: []Chunk{{Text: tag + " " + p.text + "\"{\" "}, {Lit: lit()}, {Text: " a{b {3} "}, {Lit: lit()}, {Text: "\r\n"}}}
+			out = append(out, Variant{Cmd: c})
+		}
+		for _, la := range lookalikes {
+			c := Cmd{Tag: tag, Kind: KPlain, Class: "literal-lookalike-at-end-of-rejected-command-line", Junk: []string{jk},
+				Name:   fmt.Sprintf("%s(rejected-line,%s)", p.name, la.name),
+				Chunks: []Chunk{{Text: tag + " " + p.text + la.text + "\r\n"}}}
+			out = append(out, Variant{Cmd: c})
+		}
+	}
 	return out
 }
 
